@@ -3,6 +3,11 @@ CONSTANT MaxColl = 1
 CONSTANT MaxReq = 1
 CONSTANT MaxVW = 6
 CONSTANT MaxBW = 1
+CONSTANT MultIn = 2
+CONSTANT MultColl = 2
+CONSTANT MultReq = 3
+CONSTANT MultTotal = 4
+CONSTANT MaxMult = 3
 CONSTANT FlagSlice = "full"
 INIT Init
 NEXT Next
@@ -16,5 +21,6 @@ INVARIANT ScriptInputsNeutral
 INVARIANT VerdictShape
 INVARIANT OrderIrrelevant
 INVARIANT FlagIrrelevant
+INVARIANT MultiplicityIrrelevant
 INVARIANT Emit
 POSTCONDITION AllCasesVisited
